@@ -74,7 +74,8 @@ func c09NewWorld() *c09World {
 	}
 	w.locked = zapcore.Lock(&c09Discard{})
 	base := zapcore.NewCore(enc(), w.locked, w.atom)
-	w.shared = zap.New(base)
+	// the shared logger's own context holds a reflected value (its encoder has used a reflection buffer)
+	w.shared = zap.New(base).With(zap.Reflect("ctx", struct{ A, B int }{1, 2}))
 	w.lazy = w.shared.WithLazy(zap.Int("lazy", 1), zap.Reflect("r", []int{1}))
 	oc, logs := observer.New(w.atom)
 	w.obs = logs
@@ -181,6 +182,9 @@ var c09Concrete = map[string][]func(w *c09World, r *rand.Rand){
 	"logger.with": {
 		func(w *c09World, r *rand.Rand) { w.shared.With(zap.Int("w", 1), zap.Namespace("ns")).Info("derived") },
 		func(w *c09World, r *rand.Rand) { w.shared.Named("n").WithOptions(zap.AddCaller()).Info("named") },
+		func(w *c09World, r *rand.Rand) {
+			w.shared.With(zap.Reflect("r", map[string]int{"k": r.Intn(9)}), zap.Any("a", []interface{}{1, "x"})).Info("reflected child")
+		},
 		func(w *c09World, r *rand.Rand) { w.shared.WithLazy(zap.Int("l", 1)).Info("lazy child") },
 		func(w *c09World, r *rand.Rand) { w.shared.Sugar().With("k", 1).Desugar().Info("round trip") },
 		func(w *c09World, r *rand.Rand) {
@@ -219,7 +223,17 @@ func childC09(args []string) {
 			w := c09NewWorld()
 			var wg sync.WaitGroup
 			start := make(chan struct{})
-			for gi, ops := range prog {
+			// first repetitions: each operation once (first-use effects); later ones: tight loops, and every other
+			// time two goroutines per process of the program
+			inner := 1
+			run := prog
+			if rep >= reps/3 {
+				inner = 60
+				if rep%2 == 0 {
+					run = append(append([][]string{}, prog...), prog...)
+				}
+			}
+			for gi, ops := range run {
 				wg.Add(1)
 				go func(gi int, ops []string) {
 					defer wg.Done()
@@ -232,13 +246,18 @@ func childC09(args []string) {
 					}()
 					rng := rand.New(rand.NewSource(seed*7919 + int64(rep)*31 + int64(gi)))
 					<-start
-					for _, op := range ops {
-						cs := c09Concrete[op]
-						if len(cs) == 0 {
-							fmt.Fprintf(os.Stderr, "HARNESS no concrete operation for %s\n", op)
-							continue
+					for it := 0; it < inner; it++ {
+						for _, op := range ops {
+							cs := c09Concrete[op]
+							if len(cs) == 0 {
+								fmt.Fprintf(os.Stderr, "HARNESS no concrete operation for %s\n", op)
+								continue
+							}
+							if op == "bws.stop" && it > 0 {
+								continue
+							}
+							cs[(rep+gi+it)%len(cs)](w, rng)
 						}
-						cs[(rep+gi)%len(cs)](w, rng)
 					}
 				}(gi, ops)
 			}
@@ -310,7 +329,7 @@ func checkC09(c *Ctx) {
 	}
 	c.Set("operation_pairs", int64(npairs))
 	c.Set("programs_run", int64(len(progs)))
-	reps := c.Pick(60, 600)
+	reps := c.Pick(36, 300)
 	exe, _ := os.Executable()
 	type res struct {
 		idx        int
@@ -393,7 +412,7 @@ func checkC09(c *Ctx) {
 	// gate-forced first use of a lazy logger (nil core before it exists = a panic)
 	runLazyOnce(c, "C09/", func(k string) bool { return k == "lazy/panic" })
 	c.Set("exhaustive", false)
-	c.Set("rule", fmt.Sprintf("every unordered pair of the 16 protocol operations of SyncProtocol.tla and a seeded sample of triples, each %d times on fresh fixtures under the race detector with GOMAXPROCS 1..8; LazyOnce.tla schedules forced through gates", reps))
+	c.Set("rule", fmt.Sprintf("every unordered pair of the 16 protocol operations of SyncProtocol.tla and a seeded sample of triples, each %d times on fresh fixtures (one third single-shot, two thirds as tight loops of 60 iterations, half of those with two goroutines per process) under the race detector with GOMAXPROCS 1..8; LazyOnce.tla schedules forced through gates", reps))
 }
 
 func firstLines(s string, n int) string {
